@@ -57,6 +57,19 @@ def make_template(scratch: str, nsnap: int) -> str:
     return path
 
 
+# equivalent spellings of a pointer's content: what echo / an editor / a restore script leaves; _parse_hint_content strips it
+PTR_SPELLINGS = {"": "%s", "nl": "%s\n", "crlf": "%s\r\n", "pad": " %s \n"}
+
+
+def respell_pointer(root: str, spelling: str) -> None:
+    if not spelling:
+        return
+    p = os.path.join(root, P.HINT)
+    name = open(p, "rb").read().decode("utf-8").strip()
+    with open(p, "wb") as f:
+        f.write((PTR_SPELLINGS[spelling] % name).encode("utf-8"))
+
+
 def op_fn(kind: str, root: str, pre: Optional[Dict[str, Any]]) -> Callable[[], Any]:
     def fn() -> Any:
         import datashard
@@ -215,17 +228,23 @@ def run(ctx) -> None:
     ctx.rule = ("fork-and-kill at every crash point k (storage-level calls + OS-level sub-steps of atomic writes + lock take/release) "
                 "of each operation x tables with 0..3 prior snapshots; distinct = (operation, prior snapshots, k)")
     ctx.trusted_base += ["harness/lib/crash.py (fork + os._exit at a counted step; parent acts as the fresh process)"]
-    ctx.assumptions += ["process death only (page cache intact); power loss is C16", "pointer intact before the operation"]
-    ctx.proofs(THEOREMS, gen_files=["GenCommit.v"])
+    ctx.assumptions += ["process death only (page cache intact); power loss is C16",
+                        "pointer intact before the operation, in any spelling the resolution accepts (Model/Hint.v parse_hint strips "
+                        "whitespace): as the library writes it, or the same file name followed / surrounded by whitespace"]
+    # GenHint.v: what a reopen resolves the pointer's content to is part of what "reopening shows" means
+    ctx.proofs(THEOREMS, gen_files=["GenCommit.v", "GenHint.v"])
     ctx.allow_axioms([])
     quick = ctx.tier == "quick"
-    plan = [("append", 2), ("delete_snapshot", 2), ("create", 0), ("expire", 3), ("delete_files", 2), ("append+expire", 3),
-            ("delete+append+expire", 2)] if quick else \
-        [("create", 0), ("append", 0), ("append", 1), ("append", 3), ("delete_files", 2), ("expire", 3), ("delete_snapshot", 2), ("delete_snapshot", 3), ("collect", 2),
-         ("append+expire", 3), ("delete+append", 2), ("delete+append+expire", 3), ("append+append", 1)]
+    plan = [("append", 2, ""), ("delete_snapshot", 2, ""), ("create", 0, ""), ("expire", 3, ""), ("delete_files", 2, ""), ("append+expire", 3, ""),
+            ("delete+append+expire", 2, ""), ("append", 1, "nl"), ("delete_snapshot", 2, "pad")] if quick else \
+        [("create", 0, ""), ("append", 0, ""), ("append", 1, ""), ("append", 3, ""), ("delete_files", 2, ""), ("expire", 3, ""), ("delete_snapshot", 2, ""),
+         ("delete_snapshot", 3, ""), ("collect", 2, ""),
+         ("append+expire", 3, ""), ("delete+append", 2, ""), ("delete+append+expire", 3, ""), ("append+append", 1, ""),
+         ("append", 2, "nl"), ("append", 1, "pad"), ("delete_files", 2, "crlf"), ("expire", 3, "nl"), ("delete_snapshot", 2, "pad"), ("collect", 2, "nl"),
+         ("delete+append+expire", 3, "crlf")]
     bad = []
     total = 0
-    for kind, nsnap in plan:
+    for kind, nsnap, ptr_spelling in plan:
         template = make_template(ctx.scratch, nsnap) if kind != "create" else None
         root = os.path.join(ctx.scratch, "c03-run")
 
@@ -233,6 +252,7 @@ def run(ctx) -> None:
             shutil.rmtree(root, ignore_errors=True)
             if template:
                 shutil.copytree(template, root)
+                respell_pointer(root, ptr_spelling)
         # reference: completed run
         fresh()
         pre = read_state(root) if template else None
@@ -245,38 +265,42 @@ def run(ctx) -> None:
             continue
         post_sig = sig(read_state(root))
         nsteps = len(full)
-        ctx.stats.setdefault("crash_points", {})[f"{kind}/{nsnap}"] = nsteps
+        ctx.stats.setdefault("crash_points", {})[f"{kind}/{nsnap}" + (f"/pointer:{ptr_spelling}" if ptr_spelling else "")] = nsteps
         flip_idx = next((e["i"] for e in full if e.get("step", "").startswith("os.replace:sb:metadata.version-hint")), None)
         ks = list(range(nsteps))
         if quick and len(ks) > 70:
             tail = ks[-55:]
             ks = sorted(set(ctx.rng.sample(ks[:-55], 15) + tail))
+        if quick and ptr_spelling:
+            ks = ks[-30:]          # the commit-protocol end of the operation: where an unpublished version file can be left behind
         for k in ks:
             fresh()
             st, trace = crash.run_child(k, op_fn(kind, root, pre), os.path.join(ctx.scratch, "trace.jsonl"))
             total += 1
-            ctx.count(1, (kind, nsnap, k))
+            ctx.count(1, (kind, nsnap, k, ptr_spelling))
             if st != "crashed":
-                bad.append({"op": kind, "snapshots": nsnap, "k": k, "child_status": st})
+                bad.append({"op": kind, "snapshots": nsnap, "k": k, "pointer": ptr_spelling, "child_status": st})
                 continue
             before = trace[-1].get("before", "?") if trace else "?"
             if kind == "create":
                 adopt = create_adoption_check(root, trace)
                 if adopt:
                     ctx.violation("create-crash-adopts-unpointed-v0", adopt + f" [crash before step {k}: {before}]",
-                                  {"op": kind, "snapshots": nsnap, "k": k, "before": before})
+                                  {"op": kind, "snapshots": nsnap, "k": k, "before": before, "pointer": ptr_spelling})
             why, reflected = judge(kind, root, pre, post_sig, pre_ptr)
             if why:
-                ctx.violation(f"crash:{kind}:{before.split(':')[0]}", f"{why} [crash before step {k}: {before}]",
-                              {"op": kind, "snapshots": nsnap, "k": k, "before": before})
+                ctx.violation(f"crash:{kind}:{before.split(':')[0]}" + (f":pointer-{ptr_spelling}" if ptr_spelling else ""),
+                              f"{why} [crash before step {k}: {before}]" + (f" [pointer content before the operation: file name {PTR_SPELLINGS[ptr_spelling]!r}]" if ptr_spelling else ""),
+                              {"op": kind, "snapshots": nsnap, "k": k, "before": before, "pointer": ptr_spelling})
             # model prediction (Props/C03.v C03_crash_atomic): reflected iff the flip step was reached before the crash
             if flip_idx is not None and kind != "collect":
                 predicted = k > flip_idx
                 if predicted != reflected and not why:
-                    bad.append({"op": kind, "snapshots": nsnap, "k": k, "before": before, "model_reflected": predicted, "impl_reflected": reflected})
+                    bad.append({"op": kind, "snapshots": nsnap, "k": k, "pointer": ptr_spelling, "before": before, "model_reflected": predicted, "impl_reflected": reflected})
         shutil.rmtree(root, ignore_errors=True)
     ctx.stats["crash_runs"] = total
     ctx.sample({"op": plan[0][0], "prior_snapshots": plan[0][1], "crash_points": ctx.stats["crash_points"]})
+    ctx.stats["pointer_spellings"] = {k or "as-written": sum(1 for p in plan if p[2] == k) for k in sorted({p[2] for p in plan})}
     ctx.correspondence("crash-points", total, bad)
 
 
@@ -290,6 +314,7 @@ def replay(ctx, payload) -> int:
     root = os.path.join(ctx.scratch, "c03-replay")
     if template:
         shutil.copytree(template, root)
+        respell_pointer(root, c.get("pointer", ""))
     pre = read_state(root) if template else None
     _OLD_IDS.clear()
     _OLD_IDS.update(pre["snapshot_order"] if pre else [])
@@ -297,6 +322,7 @@ def replay(ctx, payload) -> int:
     ref = os.path.join(ctx.scratch, "c03-ref")
     if template:
         shutil.copytree(template, ref)
+        respell_pointer(ref, c.get("pointer", ""))
     crash.run_child(10**9, op_fn(kind, ref, pre), os.path.join(ctx.scratch, "t.jsonl"))
     post_sig = sig(read_state(ref))
     crash.run_child(k, op_fn(kind, root, pre), os.path.join(ctx.scratch, "t.jsonl"))
